@@ -1,4 +1,5 @@
 import Orx.KSRun
+import Orx.KSLedger
 import Orx.IW.Outs
 /-! # C08 Consumed elements are moved out or dropped exactly once -/
 namespace Orx.Props.C08
@@ -69,6 +70,44 @@ drops positions 1 and 2, `Drop` has nothing left to do. -/
 theorem C08_fixed_witness_vec_skip :
     let c := run vec3 [0, 0, 0, 0] (init vec3 fun t => if t = 0 then [⟨0, .next⟩, ⟨0, .skip⟩] else [])
     c.mv = [0] ∧ c.dr = [1, 2] ∧ (owner vec3 c .drop).1.dr = [1, 2] := by decide
+
+/-- **Moved out or destroyed exactly once — vec and array, every history, every schedule.** For every consuming
+known-size source, all per-thread programs built from single pulls, chunk pulls consumed in any way (fully, the
+first `k`, through `nth`), buffered pulls, `for_each`/`fold` loops (also with a panicking closure), `skip_to_end` and
+length queries, every interleaving `σ` of their steps, and either ending (`Drop`, or `into_seq_iter` consumed to any
+extent): if the counter did not wrap, every position below `len` is in "moved out to a caller" ++ "destroyed by the
+machinery" exactly once, and no other position ever is. (`AtomicIter::get` is excluded: finding D12.) -/
+theorem vec_array_exactly_once (s : KSrc) (hown : s.owning = true) (progs : Nat → List SOp)
+    (hp : ∀ t, ∀ o ∈ progs t, OwnProg o) (σ : List Nat) (op : OwnerOp) (p : Nat)
+    (hw : NoWrap s.len (atomsOf (run s σ (init s progs)).hist 0) 0) :
+    ((owner s (run s σ (init s progs)) op).1.mv ++ (owner s (run s σ (init s progs)) op).1.dr).count p
+      = if p < s.len then 1 else 0 :=
+  exactly_once_all_schedules s hown progs hp σ op p hw
+
+/-- at every moment of every schedule: moved out + destroyed so far = what the atomic history consumed so far -/
+theorem vec_array_ledger_invariant (s : KSrc) (hown : s.owning = true) (progs : Nat → List SOp)
+    (hp : ∀ t, ∀ o ∈ progs t, OwnProg o) (σ : List Nat) (p : Nat) :
+    ((run s σ (init s progs)).mv ++ (run s σ (init s progs)).dr).count p
+      = (consumed s.len (atomsOf (run s σ (init s progs)).hist 0) 0).count p :=
+  ledger_all_schedules s hown progs hp σ p
+
+def progsW : Nat → List SOp := fun t =>
+  if t = 0 then [⟨0, .chunk 2 (.nth 1)⟩, ⟨0, .skip⟩] else if t = 1 then [⟨0, .foreach 2 (some 0)⟩] else []
+
+/-- the hypotheses are satisfiable by a non-trivial history (nth-consumed chunk, a panicking closure, a skip, two
+threads interleaved), and the conclusion is what it says on it -/
+example : (∀ t, ∀ o ∈ progsW t, OwnProg o) ∧
+    NoWrap vec3.len (atomsOf (run vec3 [0, 1, 0, 1, 1, 0, 0, 0] (init vec3 progsW)).hist 0) 0 ∧
+    (run vec3 [0, 1, 0, 1, 1, 0, 0, 0] (init vec3 progsW)).mv = [1, 2] ∧
+    (run vec3 [0, 1, 0, 1, 1, 0, 0, 0] (init vec3 progsW)).dr = [0] := by
+  refine ⟨?_, by decide, by decide, by decide⟩
+  intro t o ho
+  unfold progsW at ho
+  split at ho
+  · simp at ho; rcases ho with rfl | rfl <;> exact ⟨rfl, fun _ => by simp, fun _ => by simp⟩
+  · split at ho
+    · simp at ho; subst ho; exact ⟨rfl, fun _ => by simp, fun _ => by simp⟩
+    · simp at ho
 
 /-- **Finding D12 (open)**: `AtomicIter::get(0)` twice from safe code moves element 0 out twice. -/
 theorem C08_finding_get_twice :
